@@ -1,4 +1,4 @@
-import PyYetiVerif.Lemmas.Op4VariantsReadLoop
+import PyYetiVerif.Lemmas.Op4VariantsReadDense
 /-!
 # C11 (continued) — the binary OUTPUT4 reader, every physical variant
 
@@ -135,6 +135,34 @@ theorem op4_cutoff_irrelevant_enc (v : Variant) (c₁ c₂ : Int) (pl : List (Li
   cases hf2
   rw [h1, h2]
 
+/-- **decoded to exactly the encoded matrix, whatever the partition.**  `applyPuts` is the dense read
+(`X[r : r + len(Y), c] = Y` for every put, numpy semantics, on a zero matrix of `ncols` columns of `m·rows`
+stored reals, `m = 2` for complex).  If every put is a slice of its column of `target` holding whole elements,
+and every non-zero stored real of `target` lies in some put — the strings may touch, overlap, hold zeros, come
+in any order, in any column order — the matrix rebuilt is `target`.  With `op4_variant_file_roundtrip` (the
+puts read are the strings encoded, `mem_puts_iff`) this is: any two partitions of the same matrix, in any
+variant and layout, are read as the same matrix. -/
+theorem op4_variant_dense_matrix (m rows ncols : Nat) (target : List (List Nat)) (puts : List Put)
+    (ht : Shape target ncols (m * rows)) (hok : ∀ p ∈ puts, PutOk m rows ncols target p)
+    (hcov : ∀ j < ncols, ∀ i < m * rows, get2 target j i ≠ 0 → ∃ p ∈ puts, covers m p j i) :
+    applyPuts m rows ncols puts = .ok target :=
+  applyPuts_partition m rows ncols target puts ht hok hcov
+
+/-- the puts of an encoded matrix are exactly its strings -/
+theorem mem_puts_iff (v : Variant) (m : VMat) (p : Put) :
+    p ∈ (decOf v m).puts ↔ ∃ q ∈ m.cols, ∃ s ∈ q.2, p = (s.1, q.1, s.2) :=
+  mem_putsOfCols m.cols p
+
+/-- **list mode keeps every occurrence, dict mode the last one.**  `listload` returns the matrices in file order
+(`op4_variant_file_roundtrip`, `named_subset_is_filter_binary`: all occurrences of a repeated name);
+`dctload` stores them with `dct[name] = X` in that order, so `dct[name]` is the LAST matrix of that name
+(`lastOcc`), whatever dictionary it started from -/
+theorem dct_keeps_last {α} (k : List Nat) (l : List (List Nat × α)) :
+    lookupD k (dctOf l) = lastOcc k l := by
+  unfold dctOf
+  rw [lookup_dctOf k l []]
+  cases lastOcc k l <;> rfl
+
 /-! ### non-vacuity: admissible matrices in every layout, for a 64-bit single precision big-endian file and for a
 32-bit double precision little-endian one; a column cut into two adjacent strings, a string of length one, a
 stored zero; an empty matrix with a negative row count -/
@@ -158,5 +186,30 @@ example : [exBig, exNonbig, exDense, exEmpty].map (decOf ⟨.big, true, true⟩)
 /-- the name test is exact: `ka` is a prefix of `kaa` and does not select it; `kaa` does -/
 example : skipped [[107, 97]] [107, 97, 97] = true ∧ skipped [[107, 97, 97]] [107, 97, 97] = false ∧
     skipped [] [107, 97, 97] = false := by decide
+
+/-- two partitions of the same 5 × 1 column (one with adjacent strings and a stored zero, one with a single
+string) satisfy the hypotheses of `op4_variant_dense_matrix` for the same target; a repeated name in dict mode -/
+example : Shape [[0, 5, 6, 0, 7]] 1 (1 * 5) ∧
+    (∀ p ∈ [((1 : Nat), (0 : Nat), [5, 6]), (3, 0, [0, 7])], PutOk 1 5 1 [[0, 5, 6, 0, 7]] p) ∧
+    (∀ p ∈ [((0 : Nat), (0 : Nat), [0, 5, 6, 0, 7])], PutOk 1 5 1 [[0, 5, 6, 0, 7]] p) := by
+  refine ⟨⟨rfl, by simp⟩, ?_, ?_⟩
+  · intro p hp
+    simp only [List.mem_cons, List.not_mem_nil, or_false] at hp
+    rcases hp with rfl | rfl
+    · exact ⟨by decide, by decide, by decide, fun k hk => by
+        have : k = 0 ∨ k = 1 := by simp at hk; omega
+        rcases this with rfl | rfl <;> rfl⟩
+    · exact ⟨by decide, by decide, by decide, fun k hk => by
+        have : k = 0 ∨ k = 1 := by simp at hk; omega
+        rcases this with rfl | rfl <;> rfl⟩
+  · intro p hp
+    simp only [List.mem_cons, List.not_mem_nil, or_false] at hp
+    subst hp
+    exact ⟨by decide, by decide, by decide, fun k hk => by
+      have : k = 0 ∨ k = 1 ∨ k = 2 ∨ k = 3 ∨ k = 4 := by simp at hk; omega
+      rcases this with rfl | rfl | rfl | rfl | rfl <;> rfl⟩
+
+example : lookupD [107] (dctOf [([107], 1), ([109], 2), ([107], 3)]) = some 3 ∧
+    (dctOf [([107], 1), ([109], 2), ([107], 3)]).map (·.1) = [[107], [109]] := by decide
 
 end PyYetiVerif.C11
